@@ -102,13 +102,17 @@ func (dist *PowerLawDistribution) Pdf(r Scalar, x ConstScalar) error {
 }
 
 func (dist *PowerLawDistribution) LogCdf(r Scalar, x ConstScalar) error {
-  if x.GetFloat64() <= 0 {
+  if x.GetFloat64() <= dist.Xmin.GetFloat64() {
     r.SetFloat64(math.Inf(-1))
     return nil
   }
+  // log(1 - (x/xmin)^(1-alpha))
   r.Div(x, dist.Xmin)
   r.Log(r)
   r.Mul(r, dist.ca)
+  r.Exp(r)
+  r.Neg(r)
+  r.Log1p(r)
 
   return nil
 }
